@@ -166,7 +166,7 @@ def cases(rng, tier):
                         k += 1
                         out.append(pcase(env, target, tty_only, out_tty, err_tty, chunks, (2, 4, 1)[k % 3], "prompt> "))
     # other values, nested groups, non-ASCII messages
-    odd = [None, "0", "1", "", "00", "yes", "false", " 0", "0 ", b"\xff", "é"]
+    odd = [None, "0", "1", "", "00", "yes", "false", " 0", "0 ", b"\xff", "é", "0\n", "\t0", "\u00a00", "0\u3000", "+0", "0.0"]
     for _ in range(400 if not thorough else 6000):
         env = tuple(rng.choice(odd) for _ in range(3))
         out.append(pcase(env, rng.below(2), rng.chance(1, 2), rng.chance(1, 2), rng.chance(1, 2),
